@@ -82,6 +82,7 @@ def check(ctx: Ctx) -> None:
     r1_fresh_names(ctx, "C10.R19")
     mtime_is_untruncated(ctx)
     writer_names_in_reader_language(ctx)
+    recovery_tie_break_scenarios(ctx)
     # version 0 is a version: a pointer naming v0 must be honoured, not taken for "no pointer" (truth-testing the number sends
     # the reader to the directory scan, which surfaces the highest file on disk - possibly one that was never committed)
     from .common import numbers_not_truth_tested
@@ -923,3 +924,82 @@ def writer_names_in_reader_language(ctx: Ctx, rid: str = "C10.R21") -> None:
         ctx.ob(rid, f, f"the name written for version {ver} is in the reader's language", None, not bad,
                f"{sorted(names)} vs {getattr(rx, 'pattern', rx)!r}" + (f": {bad} is not matched (or its version group is not {ver})" if bad else ""),
                text=str(ver))
+
+
+def _scenario_names(ctx: Ctx, ver: int, hexes: Tuple[str, ...]) -> Optional[List[str]]:
+    """The names _new_metadata_filename builds for `ver` under the scripted uuid4().hex values (nothing is run)."""
+    from .common import concrete_eval, explore, UNKNOWN
+    f = ctx.fn("metadata_manager.MetadataManager._new_metadata_filename")
+    g = ctx.cfg(f)
+    pn = next((p.name for p in f.params if p.name not in ("self", "cls")), None)
+    if pn is None:
+        return None
+    out = []
+    for hx in hexes:
+        env = {pn: ver, "uuid4().hex": hx}
+        names = set()
+        for nid, store, _asm in explore(ctx, f, [g.entry], env, stop=[n.id for n in g.nodes if n.kind == "return"]):
+            n = g.nodes[nid]
+            if n.kind == "return" and n.ast is not None:
+                scen = dict(env)
+                scen.update({k: v for k, v in store.items() if isinstance(k, str)})
+                names.add(concrete_eval(ctx, f, n.ast.value, scen, nid))  # type: ignore[union-attr]
+        if len(names) != 1 or not isinstance(next(iter(names)), str):
+            return None
+        out.append(next(iter(names)))
+    return out if len(set(out)) == len(out) else None
+
+
+def recovery_tie_break_scenarios(ctx: Ctx, rid: str = "C10.R23") -> None:
+    ctx.rule(rid, "hint-less recovery's choice does not depend on the listing order (scenario walk over "
+             "_recover_version_from_files; the listing and the modification times are scripted, nothing is run): of two metadata "
+             "files of ONE version - the leftover of a writer killed before its pointer flip and the commit that then took the "
+             "number - the more recently modified one is resolved whichever is listed first, and a higher version wins over a "
+             "newer file of a lower version", 1)
+    from .common import concrete_eval, explore, UNKNOWN
+    f = ctx.fn("metadata_manager.MetadataManager._recover_version_from_files")
+    g = ctx.cfg(f)
+    same = _scenario_names(ctx, 3, ("0a1b2c3d4e5f60718293a4b5c6d7e8f9", "ffeeddccbbaa99887766554433221100"))
+    nxt = _scenario_names(ctx, 4, ("5566778899aabbccddeeff0011223344",))
+    if same is None or nxt is None:
+        ctx.ob(rid, f, "recovery scenarios", None, True, "_new_metadata_filename is not evaluable by the scenario evaluator (not judged)",
+               nontrivial=False, text="names")
+        return
+    old, new = same
+    scenarios = [
+        ("one version, the older file listed first", (old, new), {old: 100.0, new: 200.0}, new),
+        ("one version, the newer file listed first", (new, old), {old: 100.0, new: 200.0}, new),
+        ("a higher version is older than a lower one, listed last", (new, nxt[0]), {new: 200.0, nxt[0]: 50.0}, nxt[0]),
+        ("a higher version is older than a lower one, listed first", (nxt[0], new), {new: 200.0, nxt[0]: 50.0}, nxt[0]),
+    ]
+    rets = [n.id for n in g.nodes if n.kind == "return"]
+    for dirname in ("metadata",):
+        for what, order, mt, want in scenarios:
+            env: Dict[str, object] = {"list_files()": tuple(f"{dirname}/{x}" for x in order),
+                                      "get_modified_time()": {f"{dirname}/{k}": v for k, v in mt.items()},
+                                      (f.self_name() or "self") + ".metadata_path": dirname}
+            got = set()
+            undecided = False
+            for nid, store, _asm in explore(ctx, f, [g.entry], env, stop=rets, iterate=True):
+                n = g.nodes[nid]
+                if any(isinstance(k, tuple) and k[0] == "undecided" for k in store):
+                    undecided = True
+                if n.kind == "return" and n.ast is not None:
+                    scen = dict(env)
+                    scen.update({k: v for k, v in store.items() if isinstance(k, str)})
+                    got.add(concrete_eval(ctx, f, n.ast.value, scen, nid) if n.ast.value is not None else None)  # type: ignore[union-attr]
+            def _name(v: object) -> object:
+                if isinstance(v, tuple) and len(v) == 2 and isinstance(v[1], str):
+                    return v[1]
+                return v
+            names = {_name(v) for v in got}
+            if undecided or not got or len(names) > 1 or any(v is UNKNOWN or not isinstance(v, str) for v in names):  # (several answers: the walk forked on a comparison it could not evaluate)
+                ctx.ob(rid, f, f"recovery scenario: {what}", None, True,
+                       "the scan is not evaluable by the scenario evaluator (not judged)", nontrivial=False, text=what)
+                continue
+            ok = names == {want}
+            ctx.ob(rid, f, f"recovery scenario: {what}", None, ok,
+                   f"listing {list(order)} with modification times {mt}: resolves {sorted(names)}" + (
+                       "" if ok else f" - not {want}: which file of the pair hint-less recovery resolves depends on the order the store "
+                       "lists them in; when the leftover of a killed writer comes first, a version that was never committed surfaces"),
+                   text=what)
